@@ -286,6 +286,87 @@ def csv_history_check(res, tier):
         shutil.rmtree(base, ignore_errors=True)
 
 
+SQLITE_IMPL = r'''
+import sys, json, os, sqlite3
+from rbql import rbql_engine, rbql_sqlite
+dbp, outdir, pool, seqs, fresh = json.loads(sys.stdin.read())
+
+def run_q(conn, q, k):
+    kind, text, enc = q
+    try:
+        if kind == 'csv':
+            outp = os.path.join(outdir, 'o_%d_%d.csv' % (os.getpid(), k))
+            w = []
+            rbql_sqlite.query_sqlite_to_csv(text, conn, 't', outp, ',', 'quoted', enc, w)
+            data = open(outp, 'rb').read()
+            os.remove(outp)
+            return {'bytes': list(data), 'warnings': w}
+        res = []
+        rbql_engine.query(text, rbql_sqlite.SqliteRecordIterator(conn, 't'), rbql_engine.TableWriter(res), [], rbql_sqlite.SqliteDbRegistry(conn))
+        return {'rows': res}
+    except Exception as e:
+        return {'err': rbql_engine.exception_to_error_info(e)[0], 'msg': str(e)[:80]}
+
+out = []
+k = 0
+conn = None if fresh else sqlite3.connect(dbp)
+for seq in seqs:
+    r = []
+    for qi in seq:
+        k += 1
+        c = sqlite3.connect(dbp) if fresh else conn
+        r.append(run_q(c, pool[qi], k))
+        if fresh: c.close()
+    out.append(r)
+print(json.dumps(out))
+'''
+
+
+def sqlite_history_check(res, tier):
+    """the sqlite front-end: all sequences of <= 3 (4) queries over ONE connection the caller keeps (different encodings of the CSV output, list output, a
+    join, a failing query), each result against the same query over a fresh connection in a fresh process — the connection is the caller's object"""
+    import tempfile, shutil, os, sqlite3
+    base = tempfile.mkdtemp(prefix='rbqlverif_c16sq_')
+    try:
+        dbp = os.path.join(base, 'db.sqlite')
+        conn = sqlite3.connect(dbp)
+        conn.execute('CREATE TABLE t (id TEXT, name TEXT)')
+        conn.executemany('INSERT INTO t VALUES (?, ?)', [('1', 'caf\u00e9'), ('2', 'na\u00efve'), ('3', 'plain')])
+        conn.execute('CREATE TABLE u (id TEXT, other TEXT)')
+        conn.executemany('INSERT INTO u VALUES (?, ?)', [('1', '\u00fcber'), ('3', 'x')])
+        conn.commit(); conn.close()
+        pool = [('csv', 'select a1, a2', 'utf-8'), ('csv', 'select a2, a1', 'latin-1'), ('list', 'select a1, a2', None), ('list', 'select a2, b2 join u on a1 == b1', None),
+                ('csv', 'select a1, b2 join u on a1 == b1', 'latin-1'), ('csv', 'select a1 where a2 = 1', 'utf-8'), ('list', 'select int(a2)', None)]
+        maxlen = 3 if tier == 'quick' else 4
+        seqs = [list(sq) for L in range(1, maxlen + 1) for sq in itertools.product(range(len(pool)), repeat=L)]
+
+        def call(sq, fresh):
+            r = subprocess.run([common.PY, '-W', 'ignore', '-c', SQLITE_IMPL], input=json.dumps([dbp, base, pool, sq, fresh]).encode(), env=common.impl_env(), stdout=subprocess.PIPE, stderr=subprocess.PIPE, timeout=1800)
+            try:
+                return json.loads(r.stdout.decode().strip().split('\n')[-1])
+            except (ValueError, IndexError):
+                raise RuntimeError('C16 sqlite driver failed: ' + r.stderr.decode()[-500:])
+        solos = [call([[i]], True)[0][0] for i in range(len(pool))]
+        outs = call(seqs, False)
+        nbad = 0
+        for sq, rs in zip(seqs, outs):
+            res.evaluations += 1
+            res.nontrivial.add(('sqlite-history', tuple(sq)))
+            for pos, (qi, r) in enumerate(zip(sq, rs)):
+                if r != solos[qi]:
+                    nbad += 1
+                    if nbad <= 2:
+                        res.violations.append({'property': 'C16', 'impl': 'py', 'why': 'a query over an sqlite connection that served other RBQL queries before gave a result different from the same query over a fresh connection',
+                                               'sequence (kind, query, csv encoding)': [pool[j] for j in sq], 'position': pos, 'fresh': solos[qi], 'in_sequence': r,
+                                               'case_key': 'C16|sqlite-history|%s|%d' % (json.dumps(sq), pos)})
+                    break
+        res.count('sqlite_histories', len(seqs))
+        res.count('sqlite_history_failures', nbad)
+        res.exhaustive['all sequences of <= %d queries from a pool of %d over one sqlite connection' % (maxlen, len(pool))] = True
+    finally:
+        shutil.rmtree(base, ignore_errors=True)
+
+
 def impl(mode, arg, timeout=900):
     r = subprocess.run([common.PY, '-W', 'ignore', '-c', IMPL, mode], input=json.dumps(arg).encode(), env=common.impl_env(), stdout=subprocess.PIPE, stderr=subprocess.PIPE, timeout=timeout)
     try:
@@ -311,7 +392,7 @@ def generated_obligations(res):
     fe = shared_state_scan.scan_frontends(str(common.REPO / 'rbql-py' / 'rbql'))
     res.notes.append('front-end footprint: %s' % json.dumps(fe))
     fproblems = []
-    for k in ('writtenOnQueryPath', 'classLevelMutable', 'mutableDefaults', 'sharedInstancesUsed'):
+    for k in ('writtenOnQueryPath', 'classLevelMutable', 'mutableDefaults', 'sharedInstancesUsed', 'callerObjectsWritten'):
         if fe[k]:
             fproblems.append('generated obligation C16_frontends_no_shared_writes fails: %s = %s' % (k, fe[k]))
     return 2, (0 if problems else 1) + (0 if fproblems else 1), problems + fproblems
@@ -423,6 +504,7 @@ def run(res, tier, seed):
         res.violations.append({'property': 'C16', 'impl': 'py', 'why': 'a query run after other queries over the same table / registry objects gave a result different from the fresh-interpreter run', 'detail': bd,
                                'case_key': 'C16|shared-history|%s|%d' % (json.dumps(bd['sequence']), bd['position'])})
     csv_history_check(res, tier)
+    sqlite_history_check(res, tier)
     for bd in h['bad'][:2] + h2['bad'][:2] + h3['bad'][:2]:
         res.violations.append({'property': 'C16', 'impl': 'py', 'why': 'a query run after other queries gave a result different from the fresh-interpreter run', 'detail': bd,
                                'case_key': 'C16|history|%s|%d' % (json.dumps(bd['sequence']), bd['position'])})
